@@ -63,6 +63,19 @@ def payloads(rng, tier):
         yield "bits", {"bits": b}
     for s in ["", "A", "T", "AA", "ACGT", "AAAC", "T" * 33]:
         yield "dna", {"dna": s}
+    # values next to m * 10^e (long runs of nines or of zeros in the decimal numeral: carries that ripple through whole limbs),
+    # as bit sequences and as strands; some with a tail appended so that the special value is only a PREFIX value
+    for e in range({"quick": 14, "thorough": 9, "search": 30}[tier], {"quick": 60, "thorough": 130, "search": 40}[tier], 1 if tier != "quick" else 2):
+        for m in (1, 3, 15):
+            for d in (-1, 1, -7):
+                v = m * 10 ** e + d
+                bits = [int(c) for c in bin(v)[2:]] + [rng.randint(0, 1) for _ in range(rng.choice([0, 0, 2]))]
+                yield "bits", {"bits": bits}
+                q, dna = v, ""
+                while q:
+                    dna = "ACGT"[q % 4] + dna
+                    q //= 4
+                yield "dna", {"dna": dna + "".join(rng.choice("ACGT") for _ in range(rng.choice([0, 0, 4])))}
     for _ in range(n):
         yield "bits", {"bits": bits_of(rng, mb)}
         yield "dna", {"dna": dna_of(rng, md)}
